@@ -353,6 +353,21 @@ func (r *resolver) copyOverSubmoduleData(main *Module, sub *Module) error {
 	return r.copyOverIncludes(main, sub.includes)
 }
 
+// the node that holds a choice has the nodes of the choice's cases indexed by name: after a
+// case or a node of a case was removed the index is built again
+func reindexChoiceHolder(choice *Choice) error {
+	holder, valid := choice.Parent().(HasDataDefinitions)
+	if !valid {
+		return nil
+	}
+	for _, candidate := range holder.popDataDefinitions() {
+		if err := holder.addDataDefinition(candidate); err != nil {
+			return err
+		}
+	}
+	return nil
+}
+
 func (r *resolver) applyDeviation(y *Module, d *Deviation) error {
 	target := Find(y, d.Ident())
 	if target == nil {
@@ -366,6 +381,15 @@ func (r *resolver) applyDeviation(y *Module, d *Deviation) error {
 		case *Notification:
 			notifs := target.Parent().(HasNotifications).Notifications()
 			delete(notifs, target.Ident())
+		case *ChoiceCase:
+			choice, valid := target.Parent().(*Choice)
+			if !valid {
+				return fmt.Errorf("deviation %s - not-supported cannot remove a %T from a %T", d.Ident(), target, target.Parent())
+			}
+			delete(choice.cases, target.Ident())
+			if err := reindexChoiceHolder(choice); err != nil {
+				return err
+			}
 		default:
 			hasDDefs, valid := target.Parent().(HasDataDefinitions)
 			if !valid {
@@ -375,6 +399,13 @@ func (r *resolver) applyDeviation(y *Module, d *Deviation) error {
 			for _, candidate := range existing {
 				if candidate != target {
 					if err := hasDDefs.addDataDefinition(candidate); err != nil {
+						return err
+					}
+				}
+			}
+			if cs, inCase := hasDDefs.(*ChoiceCase); inCase {
+				if choice, valid := cs.Parent().(*Choice); valid {
+					if err := reindexChoiceHolder(choice); err != nil {
 						return err
 					}
 				}
@@ -389,6 +420,13 @@ func (r *resolver) applyDeviation(y *Module, d *Deviation) error {
 	if _, isAny := target.(*Any); isAny {
 		// anydata has neither type nor units nor default
 		hasType = nil
+	}
+	// a default may be deviated on a leaf, a leaf-list and a choice (RFC7950 Sec 7.20.3.2)
+	var hasDefault HasDefault
+	if hasType != nil {
+		hasDefault = hasType
+	} else if choice, isChoice := target.(*Choice); isChoice {
+		hasDefault = choice
 	}
 	hasListDets, _ := target.(HasListDetails)
 	hasMusts, _ := target.(HasMusts)
@@ -450,17 +488,17 @@ func (r *resolver) applyDeviation(y *Module, d *Deviation) error {
 			hasType.setUnits(d.Add.units)
 		}
 		if d.Add.HasDefault() {
-			if hasType == nil {
+			if hasDefault == nil {
 				return inapplicable("default")
 			}
-			if hasType.HasDefault() {
+			if hasDefault.HasDefault() {
 				return fmt.Errorf("default already set on %s", d.Ident())
 			}
 			if _, isLeafList := target.(*LeafList); !isLeafList && len(d.Add.Default()) > 1 {
 				return fmt.Errorf("deviation %s - only a leaf-list takes more than one default", d.Ident())
 			}
 			for _, deflt := range d.Add.Default() {
-				hasType.addDefault(deflt)
+				hasDefault.addDefault(deflt)
 			}
 		}
 		for _, unique := range d.Add.unique {
@@ -523,19 +561,19 @@ func (r *resolver) applyDeviation(y *Module, d *Deviation) error {
 			hasType.setUnits(d.Replace.units)
 		}
 		if d.Replace.HasDefault() {
-			if hasType == nil {
+			if hasDefault == nil {
 				return inapplicable("default")
 			}
-			if !hasType.HasDefault() {
+			if !hasDefault.HasDefault() {
 				return fmt.Errorf("default not set on %s", d.Ident())
 			}
 			defaults := d.Replace.Default()
-			if v, valid := hasType.(HasDefaultValues); valid {
+			if v, valid := hasDefault.(HasDefaultValues); valid {
 				v.setDefault(defaults)
 			} else if len(defaults) > 1 {
 				return fmt.Errorf("only supports single default %s", d.Ident())
 			} else {
-				hasType.(HasDefaultValue).setDefault(defaults[0])
+				hasDefault.(HasDefaultValue).setDefault(defaults[0])
 			}
 		}
 	}
@@ -551,15 +589,15 @@ func (r *resolver) applyDeviation(y *Module, d *Deviation) error {
 			hasType.setUnits("")
 		}
 		if d.Delete.HasDefault() {
-			if hasType == nil {
+			if hasDefault == nil {
 				return inapplicable("default")
 			}
-			if !sameDefaults(hasType.DefaultValue(), d.Delete.DefaultValue()) {
+			if !sameDefaults(hasDefault.DefaultValue(), d.Delete.DefaultValue()) {
 				return fmt.Errorf("cannot delete default '%s' != '%s' on %s",
-					d.Delete.Default(), hasType.DefaultValue(),
+					d.Delete.Default(), hasDefault.DefaultValue(),
 					d.Ident())
 			}
-			hasType.clearDefault()
+			hasDefault.clearDefault()
 		}
 		for _, unique := range d.Delete.unique {
 			if asList == nil {
